@@ -18,8 +18,12 @@
   * `EncOk F enc`: `enc e` is four limbs below 2^64, `F.raw e = enc e`, `enc (F.ofRaw l) = l` for four limbs `l` below
     2^64 (the model builds the selected coordinates with `F.ofRaw … (F.raw …)`); TransformPrecomputed needs only `F.raw = enc`.
   * globals: `G 0 = elemV (enc F.setOne)` (internal.sm2ElementOne), `G 2 = bytesV (bytes F F.zero)` (fiat.sm2ZeroEncoding).
-  * primitives (Fiat straight-line code, uninterpreted here): sm2Square (25), sm2Mul (23) compute `F.square`, `F.mul` on
-    encodings into any destination; `BytesPrims` (sm2FromMontgomery 30, sm2ToBytes 31) of CTIRRefineField.lean.
+  * primitives (Fiat straight-line code, uninterpreted here; theorems of SMGo/Proofs/CTIRRefineFiat.lean for `prog`):
+    sm2Square (25), sm2Mul (23) compute `F.square`, `F.mul` on encodings into any destination of four limbs below 2^64
+    (`hsq : ∀ o a, Out4 o → …`, `hmul : ∀ o a b, Out4 o → …`; a destination of another shape makes the IR stuck or
+    returns another shape, so the hypotheses are NOT stated for arbitrary `o`); `henc : ∀ e, Out4 (enc e)`; the old
+    limbs `z0` of the receiver of Invert satisfy `Out4 z0`; `BytesPrims` (sm2FromMontgomery 30, sm2ToBytes 31, called
+    with the destinations `[0,0,0,0]` and 32 zero bytes) of CTIRRefineField.lean.
   * `F.chain = fieldInverse`, `F.chainRegs = fieldInverse_regs` (the model's chain is the generated one).
   * the external `big.Int.SetBytes` (external 7) is `Bytes.toNatBE`; proved for `stdOracle extKinds tape` (`stdOracle_setBytes`).
 
@@ -1116,6 +1120,8 @@ def fuelItems (Fsq Fmul : Nat) : List Item → Nat
   | [] => 0
   | it :: r => fuelItems Fsq Fmul r + itemFuel Fsq Fmul it
 
+theorem out4_zeros : Out4 [0, 0, 0, 0] := ⟨0, 0, 0, 0, rfl, by decide, by decide, by decide, by decide⟩
+
 section Chain
 variable {α : Type} {P : Prog} {G : Nat → Val} {X : Oracle}
 
@@ -1149,10 +1155,10 @@ theorem vr_le : ∀ i, vr i ≤ 5 := by
   split <;> omega
 
 /-- the variables of the defined registers hold the encodings of the model's registers; all five variables
-    hold arrays of unsigned integers -/
+    hold arrays of four limbs below 2^64 (what the Fiat primitives demand of their destination) -/
 structure RegInv (enc : α → List Nat) (zero : α) (env : Env) (regs : List α) (D : List Nat) : Prop where
   val : ∀ i, i < 5 → i ∈ D → env (vr i) = limbsV (enc (regs.getD i zero))
-  arr : ∀ i, i < 5 → ∃ o, env (vr i) = limbsV o
+  arr : ∀ i, i < 5 → ∃ o, env (vr i) = limbsV o ∧ Out4 o
 
 theorem RegInv.mono {enc : α → List Nat} {zero : α} {env : Env} {regs : List α} {D D' : List Nat}
     (h : RegInv enc zero env regs D) (hD : ∀ i, i ∈ D' → i ∈ D) : RegInv enc zero env regs D' :=
@@ -1166,7 +1172,7 @@ theorem RegInv.frame {enc : α → List Nat} {zero : α} {env : Env} {regs : Lis
   · rw [Env.set_other _ _ (hne i)]; exact h.arr i hi
 
 theorem RegInv.write {enc : α → List Nat} {zero : α} {env : Env} {regs : List α} {D : List Nat}
-    (h : RegInv enc zero env regs D) (hlen : regs.length = 5) (d : Nat) (hd : d < 5) (v : α) :
+    (h : RegInv enc zero env regs D) (hlen : regs.length = 5) (d : Nat) (hd : d < 5) (v : α) (hv : Out4 (enc v)) :
     RegInv enc zero (env.set (vr d) (limbsV (enc v))) (regs.set d v) (d :: D) := by
   refine ⟨fun i hi hm => ?_, fun i hi => ?_⟩
   · by_cases hid : i = d
@@ -1181,7 +1187,7 @@ theorem RegInv.write {enc : α → List Nat} {zero : α} {env : Env} {regs : Lis
         · exact e)
   · by_cases hid : i = d
     · subst hid
-      exact ⟨_, Env.set_same _ _ _⟩
+      exact ⟨_, Env.set_same _ _ _, hv⟩
     · have hv : vr i ≠ vr d := fun e => hid (vr_inj i hi d hd e)
       rw [Env.set_other _ _ hv]
       exact h.arr i hi
@@ -1189,25 +1195,25 @@ theorem RegInv.write {enc : α → List Nat} {zero : α} {env : Env} {regs : Lis
 variable {F : Model.Field.FieldOps α} {enc : α → List Nat} {Fsq Fmul : Nat}
 
 /-- `z.Square(x)` -/
-theorem step_sq (hsq : ∀ o a, Computes P G X f_fiat_sm2Square Fsq [limbsV o, limbsV (enc a)] [limbsV (enc (F.square a))])
+theorem step_sq (henc : ∀ e, Out4 (enc e)) (hsq : ∀ o a, Out4 o → Computes P G X f_fiat_sm2Square Fsq [limbsV o, limbsV (enc a)] [limbsV (enc (F.square a))])
     {env : Env} {regs : List α} {D : List Nat} {d s : Nat} (h : RegInv enc F.zero env regs D) (hlen : regs.length = 5)
     (hd : d < 5) (hs : s < 5) (hD : s ∈ D) :
     EvIn P G X (Fsq + 1) env (sqStmt d s) (env.set (vr d) (limbsV (enc (F.square (regs.getD s F.zero))))) .norm ∧
       RegInv enc F.zero (env.set (vr d) (limbsV (enc (F.square (regs.getD s F.zero))))) (opStep F regs (.sq d s)) (d :: D) := by
-  obtain ⟨o, ho⟩ := h.arr d hd
-  refine ⟨(hsq o (regs.getD s F.zero)).call ?_ rfl, h.write hlen d hd _⟩
+  obtain ⟨o, ho, ho4⟩ := h.arr d hd
+  refine ⟨(hsq o (regs.getD s F.zero) ho4).call ?_ rfl, h.write hlen d hd _ (henc _)⟩
   simp only [evalVs_cons, evalVs_nil, evalV_var, ho, h.val s hs hD]
 
 /-- `z.Mul(x, y)` -/
-theorem step_mul (hmul : ∀ o a b, Computes P G X f_fiat_sm2Mul Fmul [limbsV o, limbsV (enc a), limbsV (enc b)] [limbsV (enc (F.mul a b))])
+theorem step_mul (henc : ∀ e, Out4 (enc e)) (hmul : ∀ o a b, Out4 o → Computes P G X f_fiat_sm2Mul Fmul [limbsV o, limbsV (enc a), limbsV (enc b)] [limbsV (enc (F.mul a b))])
     {env : Env} {regs : List α} {D : List Nat} {d a b : Nat} (h : RegInv enc F.zero env regs D) (hlen : regs.length = 5)
     (hd : d < 5) (ha : a < 5) (hb : b < 5) (hDa : a ∈ D) (hDb : b ∈ D) :
     EvIn P G X (Fmul + 1) env (mulStmt d a b)
         (env.set (vr d) (limbsV (enc (F.mul (regs.getD a F.zero) (regs.getD b F.zero))))) .norm ∧
       RegInv enc F.zero (env.set (vr d) (limbsV (enc (F.mul (regs.getD a F.zero) (regs.getD b F.zero)))))
         (opStep F regs (.mul d a b)) (d :: D) := by
-  obtain ⟨o, ho⟩ := h.arr d hd
-  refine ⟨(hmul o (regs.getD a F.zero) (regs.getD b F.zero)).call ?_ rfl, h.write hlen d hd _⟩
+  obtain ⟨o, ho, ho4⟩ := h.arr d hd
+  refine ⟨(hmul o (regs.getD a F.zero) (regs.getD b F.zero) ho4).call ?_ rfl, h.write hlen d hd _ (henc _)⟩
   simp only [evalVs_cons, evalVs_nil, evalV_var, ho, h.val a ha hDa, h.val b hb hDb]
 
 theorem loop_cond_val {env : Env} {c hi i : Nat} (hc : env c = .int (i : Int)) :
@@ -1219,7 +1225,7 @@ theorem loop_cond_val {env : Env} {c hi i : Nat} (hc : env c = .int (i : Int)) :
     simp [loopCond, evalV_op2, evalV_var, hc, evalOp2, ofBool, this, h]
 
 /-- a loop of `n` squarings of register `d` = `n` operations `.sq d d` -/
-theorem sq_loop (hsq : ∀ o a, Computes P G X f_fiat_sm2Square Fsq [limbsV o, limbsV (enc a)] [limbsV (enc (F.square a))])
+theorem sq_loop (henc : ∀ e, Out4 (enc e)) (hsq : ∀ o a, Out4 o → Computes P G X f_fiat_sm2Square Fsq [limbsV o, limbsV (enc a)] [limbsV (enc (F.square a))])
     {D : List Nat} {c hi d : Nat} (hc : 6 ≤ c) (hd : d < 5) (hhi : hi < 9223372036854775808) (hD : d ∈ D) :
     ∀ (n i : Nat) (env : Env) (regs : List α), RegInv enc F.zero env regs D → regs.length = 5 →
       env c = .int (i : Int) → i + n = hi →
@@ -1236,7 +1242,7 @@ theorem sq_loop (hsq : ∀ o a, Computes P G X f_fiat_sm2Square Fsq [limbsV o, l
     intro i env regs h hlen hci hin
     have hcv := loop_cond_val (G := G) (hi := hi) hci
     rw [if_pos (by omega)] at hcv
-    obtain ⟨hbody, h1⟩ := step_sq (P := P) (G := G) (X := X) hsq h hlen hd hd hD
+    obtain ⟨hbody, h1⟩ := step_sq (P := P) (G := G) (X := X) henc hsq h hlen hd hd hD
     have hne : c ≠ vr d := by have := vr_le d; omega
     have s : evalV G (env.set (vr d) (limbsV (enc (F.square (regs.getD d F.zero))))) (.op2 (.add .i64) (.var c) (.lit 1))
         = some (.int ((i + 1 : Nat) : Int)) := by
@@ -1252,8 +1258,8 @@ theorem sq_loop (hsq : ∀ o a, Computes P G X f_fiat_sm2Square Fsq [limbsV o, l
 
 /-- **the correspondence**: running the statements of a checked list of items maintains `RegInv` against the fold
     of the model's operations -/
-theorem items_ok (hsq : ∀ o a, Computes P G X f_fiat_sm2Square Fsq [limbsV o, limbsV (enc a)] [limbsV (enc (F.square a))])
-    (hmul : ∀ o a b, Computes P G X f_fiat_sm2Mul Fmul [limbsV o, limbsV (enc a), limbsV (enc b)] [limbsV (enc (F.mul a b))]) :
+theorem items_ok (henc : ∀ e, Out4 (enc e)) (hsq : ∀ o a, Out4 o → Computes P G X f_fiat_sm2Square Fsq [limbsV o, limbsV (enc a)] [limbsV (enc (F.square a))])
+    (hmul : ∀ o a b, Out4 o → Computes P G X f_fiat_sm2Mul Fmul [limbsV o, limbsV (enc a), limbsV (enc b)] [limbsV (enc (F.mul a b))]) :
     ∀ (items : List Item) (env : Env) (regs : List α) (D : List Nat),
       RegInv enc F.zero env regs D → regs.length = 5 → chk D items = true →
       ∃ env', Pre P G X (fuelItems Fsq Fmul items) env (items.flatMap Item.stmts) env' ∧
@@ -1268,20 +1274,20 @@ theorem items_ok (hsq : ∀ o a, Computes P G X f_fiat_sm2Square Fsq [limbsV o, 
     | sq d s =>
       simp only [chk, Bool.and_eq_true, decide_eq_true_eq] at hchk
       obtain ⟨⟨⟨hd, hs⟩, hD⟩, hrest⟩ := hchk
-      obtain ⟨c1, h1⟩ := step_sq (P := P) (G := G) (X := X) hsq h hlen hd hs hD
+      obtain ⟨c1, h1⟩ := step_sq (P := P) (G := G) (X := X) henc hsq h hlen hd hs hD
       obtain ⟨env', p', h'⟩ := ih _ _ _ h1 (by rw [opStep_length]; exact hlen) hrest
       exact ⟨env', (Pre.append (Pre.cons c1 (Pre.nil _)) p').mono (by simp only [fuelItems, itemFuel]; omega), h'⟩
     | mul d a b =>
       simp only [chk, Bool.and_eq_true, decide_eq_true_eq] at hchk
       obtain ⟨⟨⟨⟨⟨hd, ha⟩, hb⟩, hDa⟩, hDb⟩, hrest⟩ := hchk
-      obtain ⟨c1, h1⟩ := step_mul (P := P) (G := G) (X := X) hmul h hlen hd ha hb hDa hDb
+      obtain ⟨c1, h1⟩ := step_mul (P := P) (G := G) (X := X) henc hmul h hlen hd ha hb hDa hDb
       obtain ⟨env', p', h'⟩ := ih _ _ _ h1 (by rw [opStep_length]; exact hlen) hrest
       exact ⟨env', (Pre.append (Pre.cons c1 (Pre.nil _)) p').mono (by simp only [fuelItems, itemFuel]; omega), h'⟩
     | loop c lo hi d =>
       simp only [chk, Bool.and_eq_true, decide_eq_true_eq] at hchk
       obtain ⟨⟨⟨⟨⟨hc, hlo⟩, hhi⟩, hd⟩, hD⟩, hrest⟩ := hchk
       have c0 : EvIn P G X 1 env (.assign c [] (.lit (lo : Int))) (env.set c (.int (lo : Int))) .norm := EvIn.assign rfl
-      obtain ⟨env1, hl, h1⟩ := sq_loop (P := P) (G := G) (X := X) hsq hc hd hhi hD (hi - lo) lo _ regs
+      obtain ⟨env1, hl, h1⟩ := sq_loop (P := P) (G := G) (X := X) henc hsq hc hd hhi hD (hi - lo) lo _ regs
         (h.frame c (.int (lo : Int)) hc) hlen (Env.set_same _ _ _) (by omega)
       obtain ⟨env', p', h'⟩ := ih _ _ _ h1 (by rw [foldl_opStep_length]; exact hlen) hrest
       exact ⟨env', (Pre.append (Pre.cons c0 (Pre.cons hl (Pre.nil _))) p').mono (by simp only [fuelItems, itemFuel]; omega), h'⟩
@@ -1296,14 +1302,16 @@ theorem prog_hasInv : HasInv prog := ⟨rfl, rfl⟩
 /-- fuel for sm2FermatInvert_FiatAC given the fuels of sm2Square and sm2Mul -/
 def fuelChain (Fsq Fmul : Nat) : Nat := fuelItems Fsq Fmul chainItems + 16
 
-/-- **sm2FermatInvert_FiatAC = `Model.Field.invert`**, for any old contents `z0` of the destination.
-    `hsq`, `hmul`: the Fiat primitives sm2Square (25) and sm2Mul (23) compute `F.square`, `F.mul` on encodings, into
-    any destination; `hchain`, `hregs`: the chain of `F` is the generated `fieldInverse`. -/
+/-- **sm2FermatInvert_FiatAC = `Model.Field.invert`**, for any old contents `z0` (four limbs below 2^64) of the
+    destination.  `hsq`, `hmul`: the Fiat primitives sm2Square (25) and sm2Mul (23) compute `F.square`, `F.mul` on
+    encodings, into any destination of four limbs below 2^64; `henc`: encodings are four limbs below 2^64;
+    `hchain`, `hregs`: the chain of `F` is the generated `fieldInverse`. -/
 theorem fermatInvert_computes (hi : HasInv P)
-    (hsq : ∀ o a, Computes P G X f_fiat_sm2Square Fsq [limbsV o, limbsV (enc a)] [limbsV (enc (F.square a))])
-    (hmul : ∀ o a b, Computes P G X f_fiat_sm2Mul Fmul [limbsV o, limbsV (enc a), limbsV (enc b)] [limbsV (enc (F.mul a b))])
+    (henc : ∀ e, Out4 (enc e))
+    (hsq : ∀ o a, Out4 o → Computes P G X f_fiat_sm2Square Fsq [limbsV o, limbsV (enc a)] [limbsV (enc (F.square a))])
+    (hmul : ∀ o a b, Out4 o → Computes P G X f_fiat_sm2Mul Fmul [limbsV o, limbsV (enc a), limbsV (enc b)] [limbsV (enc (F.mul a b))])
     (hchain : F.chain = SMGo.Gen.AddChain.fieldInverse) (hregs : F.chainRegs = SMGo.Gen.AddChain.fieldInverse_regs)
-    (z0 : List Nat) (x : α) :
+    (z0 : List Nat) (hz0 : Out4 z0) (x : α) :
     Computes P G X f_fiat_sm2FermatInvert_FiatAC (fuelChain Fsq Fmul) [limbsV z0, limbsV (enc x)]
       [limbsV (enc (Model.Field.invert F x))] := by
   let e0 : Env := Env.ofList [limbsV z0, limbsV (enc x)]
@@ -1319,12 +1327,12 @@ theorem fermatInvert_computes (hi : HasInv P)
       rfl
     · have : i = 0 ∨ i = 1 ∨ i = 2 ∨ i = 3 ∨ i = 4 := by omega
       rcases this with rfl | rfl | rfl | rfl | rfl
-      · exact ⟨enc x, rfl⟩
-      · exact ⟨z0, rfl⟩
-      · exact ⟨[0, 0, 0, 0], rfl⟩
-      · exact ⟨[0, 0, 0, 0], rfl⟩
-      · exact ⟨[0, 0, 0, 0], rfl⟩
-  obtain ⟨env', p', h'⟩ := items_ok (P := P) (G := G) (X := X) hsq hmul chainItems e3 _ [0] h0 rfl chainItems_chk
+      · exact ⟨enc x, rfl, henc x⟩
+      · exact ⟨z0, rfl, hz0⟩
+      · exact ⟨[0, 0, 0, 0], rfl, out4_zeros⟩
+      · exact ⟨[0, 0, 0, 0], rfl, out4_zeros⟩
+      · exact ⟨[0, 0, 0, 0], rfl, out4_zeros⟩
+  obtain ⟨env', p', h'⟩ := items_ok (P := P) (G := G) (X := X) henc hsq hmul chainItems e3 _ [0] h0 rfl chainItems_chk
   have hz := h'.val 1 (by decide) chainItems_defd
   rw [← invert_eq F x hchain hregs] at hz
   have sr : evalVs G env' [(.var 0)] = some [limbsV (enc (Model.Field.invert F x))] := by
@@ -1351,12 +1359,13 @@ variable {α : Type} {P : Prog} {G : Nat → Val} {X : Oracle} {F : Model.Field.
 /-- fuel for (*SM2Element).Invert -/
 def fuelInvert (Fsq Fmul : Nat) : Nat := fuelChain Fsq Fmul + 8
 
-/-- **(*SM2Element).Invert = `Model.Field.invert`** (receiver with any old limbs `z0`) -/
+/-- **(*SM2Element).Invert = `Model.Field.invert`** (receiver with any old limbs `z0`, four limbs below 2^64) -/
 theorem invert_computes (hi : HasInv P)
-    (hsq : ∀ o a, Computes P G X f_fiat_sm2Square Fsq [limbsV o, limbsV (enc a)] [limbsV (enc (F.square a))])
-    (hmul : ∀ o a b, Computes P G X f_fiat_sm2Mul Fmul [limbsV o, limbsV (enc a), limbsV (enc b)] [limbsV (enc (F.mul a b))])
+    (henc : ∀ e, Out4 (enc e))
+    (hsq : ∀ o a, Out4 o → Computes P G X f_fiat_sm2Square Fsq [limbsV o, limbsV (enc a)] [limbsV (enc (F.square a))])
+    (hmul : ∀ o a b, Out4 o → Computes P G X f_fiat_sm2Mul Fmul [limbsV o, limbsV (enc a), limbsV (enc b)] [limbsV (enc (F.mul a b))])
     (hchain : F.chain = SMGo.Gen.AddChain.fieldInverse) (hregs : F.chainRegs = SMGo.Gen.AddChain.fieldInverse_regs)
-    (z0 : List Nat) (x : α) :
+    (z0 : List Nat) (hz0 : Out4 z0) (x : α) :
     Computes P G X f_fiat_SM2Element_Invert (fuelInvert Fsq Fmul) [elemV z0, elemV (enc x)]
       [elemV (enc (Model.Field.invert F x)), elemV (enc (Model.Field.invert F x))] := by
   let r := enc (Model.Field.invert F x)
@@ -1364,7 +1373,7 @@ theorem invert_computes (hi : HasInv P)
   let e1 := e0.set 3 (limbsV r)
   let e2 := e1.set 0 (elemV r)
   have c1 : EvIn P G X (fuelChain Fsq Fmul + 1) e0 (.call [3] 27 [(.idxc (.var 0) 0), (.idxc (.var 1) 0)]) e1 .norm := by
-    refine (fermatInvert_computes hi hsq hmul hchain hregs z0 x).call ?_ rfl
+    refine (fermatInvert_computes hi henc hsq hmul hchain hregs z0 hz0 x).call ?_ rfl
     have q0 : evalV G e0 (.idxc (.var 0) 0) = some (limbsV z0) := evalV_field0 rfl
     have q1 : evalV G e0 (.idxc (.var 1) 0) = some (limbsV (enc x)) := evalV_field0 rfl
     simp only [evalVs_cons, evalVs_nil, q0, q1]
@@ -1385,24 +1394,26 @@ variable {α : Type} {G : Nat → Val} {X : Oracle} {F : Model.Field.FieldOps α
 
 /-- **sm2FermatInvert_FiatAC**, as a run of the generated program -/
 theorem ir_fermatInvert
-    (hsq : ∀ o a, Computes prog G X f_fiat_sm2Square Fsq [limbsV o, limbsV (enc a)] [limbsV (enc (F.square a))])
-    (hmul : ∀ o a b, Computes prog G X f_fiat_sm2Mul Fmul [limbsV o, limbsV (enc a), limbsV (enc b)] [limbsV (enc (F.mul a b))])
+    (henc : ∀ e, Out4 (enc e))
+    (hsq : ∀ o a, Out4 o → Computes prog G X f_fiat_sm2Square Fsq [limbsV o, limbsV (enc a)] [limbsV (enc (F.square a))])
+    (hmul : ∀ o a b, Out4 o → Computes prog G X f_fiat_sm2Mul Fmul [limbsV o, limbsV (enc a), limbsV (enc b)] [limbsV (enc (F.mul a b))])
     (hchain : F.chain = SMGo.Gen.AddChain.fieldInverse) (hregs : F.chainRegs = SMGo.Gen.AddChain.fieldInverse_regs)
-    (z0 : List Nat) (x : α) :
+    (z0 : List Nat) (hz0 : Out4 z0) (x : α) :
     ∀ f, fuelChain Fsq Fmul ≤ f →
       runV prog G X f f_fiat_sm2FermatInvert_FiatAC [limbsV z0, limbsV (enc x)] = .ret [limbsV (enc (Model.Field.invert F x))] :=
-  (fermatInvert_computes prog_hasInv hsq hmul hchain hregs z0 x).runV
+  (fermatInvert_computes prog_hasInv henc hsq hmul hchain hregs z0 hz0 x).runV
 
 /-- **(*SM2Element).Invert**, as a run of the generated program -/
 theorem ir_Invert
-    (hsq : ∀ o a, Computes prog G X f_fiat_sm2Square Fsq [limbsV o, limbsV (enc a)] [limbsV (enc (F.square a))])
-    (hmul : ∀ o a b, Computes prog G X f_fiat_sm2Mul Fmul [limbsV o, limbsV (enc a), limbsV (enc b)] [limbsV (enc (F.mul a b))])
+    (henc : ∀ e, Out4 (enc e))
+    (hsq : ∀ o a, Out4 o → Computes prog G X f_fiat_sm2Square Fsq [limbsV o, limbsV (enc a)] [limbsV (enc (F.square a))])
+    (hmul : ∀ o a b, Out4 o → Computes prog G X f_fiat_sm2Mul Fmul [limbsV o, limbsV (enc a), limbsV (enc b)] [limbsV (enc (F.mul a b))])
     (hchain : F.chain = SMGo.Gen.AddChain.fieldInverse) (hregs : F.chainRegs = SMGo.Gen.AddChain.fieldInverse_regs)
-    (z0 : List Nat) (x : α) :
+    (z0 : List Nat) (hz0 : Out4 z0) (x : α) :
     ∀ f, fuelInvert Fsq Fmul ≤ f →
       runV prog G X f f_fiat_SM2Element_Invert [elemV z0, elemV (enc x)]
         = .ret [elemV (enc (Model.Field.invert F x)), elemV (enc (Model.Field.invert F x))] :=
-  (invert_computes prog_hasInv hsq hmul hchain hregs z0 x).runV
+  (invert_computes prog_hasInv henc hsq hmul hchain hregs z0 hz0 x).runV
 
 end InvertRun
 
@@ -1465,10 +1476,10 @@ variable {α : Type} {P : Prog} {G : Nat → Val} {X : Oracle} {F : Model.Field.
 theorem evalV_newElem (env : Env) : evalV G env newElemE = some (elemV [0, 0, 0, 0]) := by
   rw [newElemE, evalV_mk, evalV_mk]; rfl
 
-/-- **(*SM2Element).Mul** on encodings (receiver with any old limbs) -/
+/-- **(*SM2Element).Mul** on encodings (receiver with any old limbs `o`, four limbs below 2^64) -/
 theorem mul_computes (ha : HasAffine P)
-    (hmul : ∀ o a b, Computes P G X f_fiat_sm2Mul Fmul [limbsV o, limbsV (enc a), limbsV (enc b)] [limbsV (enc (F.mul a b))])
-    (o : List Nat) (a b : α) :
+    (hmul : ∀ o a b, Out4 o → Computes P G X f_fiat_sm2Mul Fmul [limbsV o, limbsV (enc a), limbsV (enc b)] [limbsV (enc (F.mul a b))])
+    (o : List Nat) (ho : Out4 o) (a b : α) :
     Computes P G X f_fiat_SM2Element_Mul (Fmul + 8) [elemV o, elemV (enc a), elemV (enc b)]
       [elemV (enc (F.mul a b)), elemV (enc (F.mul a b))] := by
   let r := enc (F.mul a b)
@@ -1476,7 +1487,7 @@ theorem mul_computes (ha : HasAffine P)
   let e1 := e0.set 4 (limbsV r)
   let e2 := e1.set 0 (elemV r)
   have c1 : EvIn P G X (Fmul + 1) e0 (.call [4] 23 [(.idxc (.var 0) 0), (.idxc (.var 1) 0), (.idxc (.var 2) 0)]) e1 .norm := by
-    refine (hmul o a b).call ?_ rfl
+    refine (hmul o a b ho).call ?_ rfl
     have q0 : evalV G e0 (.idxc (.var 0) 0) = some (limbsV o) := evalV_field0 rfl
     have q1 : evalV G e0 (.idxc (.var 1) 0) = some (limbsV (enc a)) := evalV_field0 rfl
     have q2 : evalV G e0 (.idxc (.var 2) 0) = some (limbsV (enc b)) := evalV_field0 rfl
@@ -1566,8 +1577,9 @@ def fuelGetAffineX (Fsq Fmul Fm Ft : Nat) : Nat :=
     sm2ToBytes (`hB`), the chain of `F` is the generated one, global 2 is the encoding of zero, the external
     `big.Int.SetBytes` is `Bytes.toNatBE` (`hX`). -/
 theorem getAffineX_computes (hw : HasWrappers P) (hi : HasInv P) (ha : HasAffine P) {C : Model.Point.Ctx α}
-    (hsq : ∀ o a, Computes P G X f_fiat_sm2Square Fsq [limbsV o, limbsV (enc a)] [limbsV (enc (C.F.square a))])
-    (hmul : ∀ o a b, Computes P G X f_fiat_sm2Mul Fmul [limbsV o, limbsV (enc a), limbsV (enc b)] [limbsV (enc (C.F.mul a b))])
+    (henc : ∀ e, Out4 (enc e))
+    (hsq : ∀ o a, Out4 o → Computes P G X f_fiat_sm2Square Fsq [limbsV o, limbsV (enc a)] [limbsV (enc (C.F.square a))])
+    (hmul : ∀ o a b, Out4 o → Computes P G X f_fiat_sm2Mul Fmul [limbsV o, limbsV (enc a), limbsV (enc b)] [limbsV (enc (C.F.mul a b))])
     (hchain : C.F.chain = SMGo.Gen.AddChain.fieldInverse) (hregs : C.F.chainRegs = SMGo.Gen.AddChain.fieldInverse_regs)
     (hB : ∀ e, BytesPrims P G X C.F enc Fm Ft e) (hG2 : G 2 = bytesV (Model.Field.bytes C.F C.F.zero))
     (hX : ∀ b : Bytes, X 7 [bytesV b] = [.int ((Bytes.toNatBE b : Nat) : Int)]) (p : Model.Point.Pt α) :
@@ -1597,12 +1609,12 @@ theorem getAffineX_computes (hw : HasWrappers P) (hi : HasInv P) (ha : HasAffine
     let e4 := e3.set 7 (elemV (enc xx))
     let e5 := e4.set 8 (.int ((Model.Field.toNat C.F xx : Nat) : Int))
     have c4 : EvIn P G X (fuelInvert Fsq Fmul + 1) d (.call [1, 4] 26 [newElemE, (.idxc (.var 0) 2)]) e1 .norm := by
-      refine (invert_computes hi hsq hmul hchain hregs [0, 0, 0, 0] p.z).call ?_ rfl
+      refine (invert_computes hi henc hsq hmul hchain hregs [0, 0, 0, 0] out4_zeros p.z).call ?_ rfl
       have q : evalV G d (.idxc (.var 0) 2) = some (elemV (enc p.z)) := evalV_ptCoord d0 (by decide)
       simp only [evalVs_cons, evalVs_nil, evalV_newElem, q]
     have c5 : EvIn P G X 1 e1 (.assign 5 [] (.var 4)) e2 .norm := EvIn.assign (by simp [e1, Env.set])
     have c6 : EvIn P G X (Fmul + 8 + 1) e2 (.call [1, 6] 22 [newElemE, (.idxc (.var 0) 0), (.var 5)]) e3 .norm := by
-      refine (mul_computes ha hmul [0, 0, 0, 0] p.x zinv).call ?_ rfl
+      refine (mul_computes ha hmul [0, 0, 0, 0] out4_zeros p.x zinv).call ?_ rfl
       have q : evalV G e2 (.idxc (.var 0) 0) = some (elemV (enc p.x)) :=
         evalV_ptCoord (p := p) (by simp [e2, e1, Env.set, d0]) (by decide)
       have g5 : e2 5 = elemV (enc zinv) := by simp [e2, Env.set]
@@ -1671,8 +1683,9 @@ def fuelPointBytes (Fsq Fmul Fm Ft : Nat) : Nat := fuelPointbytes Fsq Fmul Fm Ft
 /-- **(*SM2Point).bytes with `safe = true`** (the specialised copy, function 93) `= Model.Point.bytes C p true`,
     for any destination `out` (only `out[:0]` is used) and any value of the `safe` argument (the copy ignores it) -/
 theorem pointbytes_computes (hw : HasWrappers P) (hi : HasInv P) (ha : HasAffine P) {C : Model.Point.Ctx α}
-    (hsq : ∀ o a, Computes P G X f_fiat_sm2Square Fsq [limbsV o, limbsV (enc a)] [limbsV (enc (C.F.square a))])
-    (hmul : ∀ o a b, Computes P G X f_fiat_sm2Mul Fmul [limbsV o, limbsV (enc a), limbsV (enc b)] [limbsV (enc (C.F.mul a b))])
+    (henc : ∀ e, Out4 (enc e))
+    (hsq : ∀ o a, Out4 o → Computes P G X f_fiat_sm2Square Fsq [limbsV o, limbsV (enc a)] [limbsV (enc (C.F.square a))])
+    (hmul : ∀ o a b, Out4 o → Computes P G X f_fiat_sm2Mul Fmul [limbsV o, limbsV (enc a), limbsV (enc b)] [limbsV (enc (C.F.mul a b))])
     (hchain : C.F.chain = SMGo.Gen.AddChain.fieldInverse) (hregs : C.F.chainRegs = SMGo.Gen.AddChain.fieldInverse_regs)
     (hB : ∀ e, BytesPrims P G X C.F enc Fm Ft e) (hG2 : G 2 = bytesV (Model.Field.bytes C.F C.F.zero))
     (p : Model.Point.Pt α) (out : Bytes) (safe : Val) :
@@ -1717,19 +1730,19 @@ theorem pointbytes_computes (hw : HasWrappers P) (hi : HasInv P) (ha : HasAffine
     let e10 := e9.set 14 (bytesV byy)
     let e11 := e10.set 12 (bytesV ([4] ++ bx ++ byy))
     have c4 : EvIn P G X (fuelInvert Fsq Fmul + 1) d (.call [3, 6] 26 [newElemE, (.idxc (.var 0) 2)]) e1 .norm := by
-      refine (invert_computes hi hsq hmul hchain hregs [0, 0, 0, 0] p.z).call ?_ rfl
+      refine (invert_computes hi henc hsq hmul hchain hregs [0, 0, 0, 0] out4_zeros p.z).call ?_ rfl
       have q : evalV G d (.idxc (.var 0) 2) = some (elemV (enc p.z)) := evalV_ptCoord d0 (by decide)
       simp only [evalVs_cons, evalVs_nil, evalV_newElem, q]
     have c5 : EvIn P G X 1 e1 (.assign 7 [] (.var 6)) e2 .norm := EvIn.assign (by simp [e1, Env.set])
     have c6 : EvIn P G X (Fmul + 8 + 1) e2 (.call [3, 8] 22 [newElemE, (.idxc (.var 0) 0), (.var 7)]) e3 .norm := by
-      refine (mul_computes ha hmul [0, 0, 0, 0] p.x zinv).call ?_ rfl
+      refine (mul_computes ha hmul [0, 0, 0, 0] out4_zeros p.x zinv).call ?_ rfl
       have q : evalV G e2 (.idxc (.var 0) 0) = some (elemV (enc p.x)) :=
         evalV_ptCoord (p := p) (by simp [e2, e1, Env.set, d0]) (by decide)
       have g7 : e2 7 = elemV (enc zinv) := by simp [e2, Env.set]
       simp only [evalVs_cons, evalVs_nil, evalV_newElem, q, evalV_var, g7]
     have c7 : EvIn P G X 1 e3 (.assign 9 [] (.var 8)) e4 .norm := EvIn.assign (by simp [e3, Env.set])
     have c8 : EvIn P G X (Fmul + 8 + 1) e4 (.call [3, 10] 22 [newElemE, (.idxc (.var 0) 1), (.var 7)]) e5 .norm := by
-      refine (mul_computes ha hmul [0, 0, 0, 0] p.y zinv).call ?_ rfl
+      refine (mul_computes ha hmul [0, 0, 0, 0] out4_zeros p.y zinv).call ?_ rfl
       have q : evalV G e4 (.idxc (.var 0) 1) = some (elemV (enc p.y)) :=
         evalV_ptCoord (p := p) (by simp [e4, e3, e2, e1, Env.set, d0]) (by decide)
       have g7 : e4 7 = elemV (enc zinv) := by simp [e4, e3, e2, Env.set]
@@ -1763,8 +1776,9 @@ theorem zeros65 : (Val.arr (List.replicate (65 : Int).toNat (Val.int 0))) = byte
 
 /-- **(*SM2Point).Bytes = `Model.Point.bytes C p true`** -/
 theorem pointBytes_computes (hw : HasWrappers P) (hi : HasInv P) (ha : HasAffine P) {C : Model.Point.Ctx α}
-    (hsq : ∀ o a, Computes P G X f_fiat_sm2Square Fsq [limbsV o, limbsV (enc a)] [limbsV (enc (C.F.square a))])
-    (hmul : ∀ o a b, Computes P G X f_fiat_sm2Mul Fmul [limbsV o, limbsV (enc a), limbsV (enc b)] [limbsV (enc (C.F.mul a b))])
+    (henc : ∀ e, Out4 (enc e))
+    (hsq : ∀ o a, Out4 o → Computes P G X f_fiat_sm2Square Fsq [limbsV o, limbsV (enc a)] [limbsV (enc (C.F.square a))])
+    (hmul : ∀ o a b, Out4 o → Computes P G X f_fiat_sm2Mul Fmul [limbsV o, limbsV (enc a), limbsV (enc b)] [limbsV (enc (C.F.mul a b))])
     (hchain : C.F.chain = SMGo.Gen.AddChain.fieldInverse) (hregs : C.F.chainRegs = SMGo.Gen.AddChain.fieldInverse_regs)
     (hB : ∀ e, BytesPrims P G X C.F enc Fm Ft e) (hG2 : G 2 = bytesV (Model.Field.bytes C.F C.F.zero))
     (p : Model.Point.Pt α) :
@@ -1779,7 +1793,7 @@ theorem pointBytes_computes (hw : HasWrappers P) (hi : HasInv P) (ha : HasAffine
     simp only [evalV_lit]
     exact congrArg some zeros65
   have c2 : EvIn P G X (fuelPointbytes Fsq Fmul Fm Ft + 1) e1 (.call [3] 93 [(.var 0), (.var 2), (.lit 1)]) e2 .norm := by
-    refine (pointbytes_computes hw hi ha hsq hmul hchain hregs hB hG2 p (List.replicate 65 0) (.int 1)).call ?_ rfl
+    refine (pointbytes_computes hw hi ha henc hsq hmul hchain hregs hB hG2 p (List.replicate 65 0) (.int 1)).call ?_ rfl
     simp only [evalVs_cons, evalVs_nil, evalV_var, evalV_lit]
     rfl
   have sr : evalVs G e2 [(.var 3)] = some [bytesV (Model.Point.bytes C p true)] := by simp [evalVs_cons, e2, Env.set]
@@ -1831,19 +1845,21 @@ theorem ir_TransformPrecomputed {C : Model.Point.Ctx α} (hraw : ∀ e, C.F.raw 
 
 /-- **(*SM2Point).GetAffineX** as a run -/
 theorem ir_GetAffineX {C : Model.Point.Ctx α}
-    (hsq : ∀ o a, Computes prog G X f_fiat_sm2Square Fsq [limbsV o, limbsV (enc a)] [limbsV (enc (C.F.square a))])
-    (hmul : ∀ o a b, Computes prog G X f_fiat_sm2Mul Fmul [limbsV o, limbsV (enc a), limbsV (enc b)] [limbsV (enc (C.F.mul a b))])
+    (henc : ∀ e, Out4 (enc e))
+    (hsq : ∀ o a, Out4 o → Computes prog G X f_fiat_sm2Square Fsq [limbsV o, limbsV (enc a)] [limbsV (enc (C.F.square a))])
+    (hmul : ∀ o a b, Out4 o → Computes prog G X f_fiat_sm2Mul Fmul [limbsV o, limbsV (enc a), limbsV (enc b)] [limbsV (enc (C.F.mul a b))])
     (hchain : C.F.chain = SMGo.Gen.AddChain.fieldInverse) (hregs : C.F.chainRegs = SMGo.Gen.AddChain.fieldInverse_regs)
     (hB : ∀ e, BytesPrims prog G X C.F enc Fm Ft e) (hG2 : G 2 = bytesV (Model.Field.bytes C.F C.F.zero))
     (hX : ∀ b : Bytes, X 7 [bytesV b] = [.int ((Bytes.toNatBE b : Nat) : Int)]) (p : Model.Point.Pt α) :
     ∀ f, fuelGetAffineX Fsq Fmul Fm Ft ≤ f →
       runV prog G X f f_internal_SM2Point_GetAffineX [ptV enc p] = .ret [.int ((Model.Point.getAffineX C p : Nat) : Int)] :=
-  (getAffineX_computes prog_hasWrappers prog_hasInv prog_hasAffine hsq hmul hchain hregs hB hG2 hX p).runV
+  (getAffineX_computes prog_hasWrappers prog_hasInv prog_hasAffine henc hsq hmul hchain hregs hB hG2 hX p).runV
 
 /-- **(*SM2Point).GetAffineX** with the standard external world (`big.Int.SetBytes` of `stdOracle`) -/
 theorem ir_GetAffineX_std {C : Model.Point.Ctx α} (tape : Nat → Nat → Nat)
-    (hsq : ∀ o a, Computes prog G (stdOracle extKinds tape) f_fiat_sm2Square Fsq [limbsV o, limbsV (enc a)] [limbsV (enc (C.F.square a))])
-    (hmul : ∀ o a b, Computes prog G (stdOracle extKinds tape) f_fiat_sm2Mul Fmul [limbsV o, limbsV (enc a), limbsV (enc b)]
+    (henc : ∀ e, Out4 (enc e))
+    (hsq : ∀ o a, Out4 o → Computes prog G (stdOracle extKinds tape) f_fiat_sm2Square Fsq [limbsV o, limbsV (enc a)] [limbsV (enc (C.F.square a))])
+    (hmul : ∀ o a b, Out4 o → Computes prog G (stdOracle extKinds tape) f_fiat_sm2Mul Fmul [limbsV o, limbsV (enc a), limbsV (enc b)]
       [limbsV (enc (C.F.mul a b))])
     (hchain : C.F.chain = SMGo.Gen.AddChain.fieldInverse) (hregs : C.F.chainRegs = SMGo.Gen.AddChain.fieldInverse_regs)
     (hB : ∀ e, BytesPrims prog G (stdOracle extKinds tape) C.F enc Fm Ft e) (hG2 : G 2 = bytesV (Model.Field.bytes C.F C.F.zero))
@@ -1851,18 +1867,19 @@ theorem ir_GetAffineX_std {C : Model.Point.Ctx α} (tape : Nat → Nat → Nat)
     ∀ f, fuelGetAffineX Fsq Fmul Fm Ft ≤ f →
       runV prog G (stdOracle extKinds tape) f f_internal_SM2Point_GetAffineX [ptV enc p]
         = .ret [.int ((Model.Point.getAffineX C p : Nat) : Int)] :=
-  ir_GetAffineX hsq hmul hchain hregs hB hG2 (stdOracle_setBytes tape) p
+  ir_GetAffineX henc hsq hmul hchain hregs hB hG2 (stdOracle_setBytes tape) p
 
 /-- **(*SM2Point).Bytes** as a run -/
 theorem ir_PointBytes {C : Model.Point.Ctx α}
-    (hsq : ∀ o a, Computes prog G X f_fiat_sm2Square Fsq [limbsV o, limbsV (enc a)] [limbsV (enc (C.F.square a))])
-    (hmul : ∀ o a b, Computes prog G X f_fiat_sm2Mul Fmul [limbsV o, limbsV (enc a), limbsV (enc b)] [limbsV (enc (C.F.mul a b))])
+    (henc : ∀ e, Out4 (enc e))
+    (hsq : ∀ o a, Out4 o → Computes prog G X f_fiat_sm2Square Fsq [limbsV o, limbsV (enc a)] [limbsV (enc (C.F.square a))])
+    (hmul : ∀ o a b, Out4 o → Computes prog G X f_fiat_sm2Mul Fmul [limbsV o, limbsV (enc a), limbsV (enc b)] [limbsV (enc (C.F.mul a b))])
     (hchain : C.F.chain = SMGo.Gen.AddChain.fieldInverse) (hregs : C.F.chainRegs = SMGo.Gen.AddChain.fieldInverse_regs)
     (hB : ∀ e, BytesPrims prog G X C.F enc Fm Ft e) (hG2 : G 2 = bytesV (Model.Field.bytes C.F C.F.zero))
     (p : Model.Point.Pt α) :
     ∀ f, fuelPointBytes Fsq Fmul Fm Ft ≤ f →
       runV prog G X f f_internal_SM2Point_Bytes [ptV enc p] = .ret [bytesV (Model.Point.bytes C p true)] :=
-  (pointBytes_computes prog_hasWrappers prog_hasInv prog_hasAffine hsq hmul hchain hregs hB hG2 p).runV
+  (pointBytes_computes prog_hasWrappers prog_hasInv prog_hasAffine henc hsq hmul hchain hregs hB hG2 p).runV
 
 end Runs
 
